@@ -129,9 +129,25 @@ func startWatchdog(limit time.Duration, where func() string) {
 			}
 			if time.Since(lastT) > limit {
 				fmt.Fprintf(os.Stderr, "WATCHDOG: no progress for %v in %s\n", limit, where())
-				buf := make([]byte, 1<<20)
+				// all goroutines - but those that have been blocked for minutes are
+				// left-overs of earlier runs of this worker (a bubble that ends with
+				// parked goroutines leaves them behind): in a long-lived worker they
+				// would push the stalled run's own goroutines out of the dump
+				buf := make([]byte, 64<<20)
 				n := runtime.Stack(buf, true)
-				os.Stderr.Write(buf[:n])
+				old := regexp.MustCompile(`^goroutine \d+ \[[^\]]*, \d+ minutes`)
+				kept, dropped := 0, 0
+				for _, g := range strings.Split(string(buf[:n]), "\n\n") {
+					if old.MatchString(g) {
+						dropped++
+						continue
+					}
+					if kept < 1<<20 {
+						os.Stderr.WriteString(g + "\n\n")
+						kept += len(g)
+					}
+				}
+				fmt.Fprintf(os.Stderr, "(%d goroutines left behind by earlier runs not shown)\n", dropped)
 				os.Exit(3)
 			}
 		}
